@@ -32,7 +32,7 @@ type XNCell struct {
 
 func runXN(c XNCell) (key, detail string, err error) {
 	srv, err := miniserver.New(miniserver.Options{
-		RoutingTTL: 30 * time.Second,
+		RoutingTTL: time.Hour,
 		BruteForce: &security.BruteForceConfig{MaxFailures: 100000, TimeWindow: time.Hour, BanDuration: time.Hour, PermanentBanAt: 1000000, CleanupInterval: time.Hour},
 		IPRate:     &security.RateLimitConfig{Rate: 100000, Burst: 100000, TTL: time.Hour},
 	})
